@@ -528,6 +528,33 @@ def r6_naming_order(ctx, rep):
            f"{readers} read `.ident` (first request fixes the ~N suffix) and are first invoked from "
            f"toposort_flatten/sorted over sets of entities hashed by identity: modules of the same name in different "
            f"files swap `name` / `name~2` between runs even with PYTHONHASHSEED fixed", py.nloc(pre) if pre is not None else py.nloc(fn))
+    # nested entities (types, bindings, variables ...): named in source order as well
+    nested = [st for st in ast.walk(fn) if isinstance(st, ast.For) and st.lineno < first_sort
+              and any(isinstance(a, ast.Attribute) and a.attr == "ident" for a in ast.walk(st))
+              and any("markdownable_items" in ast.unparse(x.iter) or "_to_be_markdowned" in ast.unparse(x.iter)
+                      for x in ast.walk(st) if isinstance(x, ast.For))]
+    rep.ob("every declared entity is named in source order before any sorting", bool(nested),
+           "Project.correlate walks the files' registered entities in order and requests their names first" if nested else
+           f"only the top-level units are named up front: a derived type / binding / variable gets its ~N suffix when "
+           f"{readers} is first invoked from a sort over a set, so equal names in different scopes swap suffixes between runs",
+           py.nloc(nested[0]) if nested else py.nloc(fn))
+    # entities created during correlation (copies of inherited generic bindings)
+    copies = [c for cname, ci in py.classes.items() if ci.module == "sourceform" for mname, m in ci.methods.items() if mname == "correlate"
+              for c in py.walk_calls(m) if call_name(c) in ("copy.copy", "copy.deepcopy", "copy")]
+    corr_line = min([n.lineno for n in ast.walk(fn) if isinstance(n, ast.For) and any(
+        isinstance(c, ast.Call) and isinstance(c.func, ast.Attribute) and c.func.attr == "correlate" for c in ast.walk(n))] or [0])
+    if copies:
+        later = [st for st in ast.walk(fn) if isinstance(st, ast.For) and st.lineno > corr_line
+                 and any(isinstance(a, ast.Attribute) and a.attr == "ident" for a in ast.walk(st))
+                 and "boundprocs" in ast.unparse(st)]
+        at_site = all(any(isinstance(a, ast.Attribute) and a.attr == "ident" and isinstance(py.parents.get(a), ast.Expr)
+                          for a in ast.walk(py.enclosing_function(c))) for c in copies)
+        ok = bool(later) or at_site
+        rep.ob("entities copied during correlation are named in a fixed order", ok,
+               "inherited generic bindings (copies) are named in list order after correlation" if ok else
+               f"{len(copies)} correlate() method(s) create entity copies (inherited generic bindings); nothing names them before the "
+               f"graph code sorts sets of them, so their `~N` suffixes (anchors, node ids) depend on the hash seed",
+               py.nloc(copies[0]))
 
 
 RULES = [
